@@ -108,10 +108,10 @@ class mpool(object):
         else:
             self.pool_mem.__delitem__(self.mem_key(a))
     def items(self):
-        k = self.pool_id.items() + [x for x in self.pool_mem.values()]
+        k = list(self.pool_id.items()) + [x for x in self.pool_mem.values()]
         return k
     def keys(self):
-        k = self.pool_id.keys() + [x[0] for x in self.pool_mem.values()]
+        k = list(self.pool_id.keys()) + [x[0] for x in self.pool_mem.values()]
         return k
     def copy(self):
         p = mpool()
